@@ -564,6 +564,13 @@ def _to_c_expr(
             if isinstance(n.op, ast.Div):
                 # Python's ``/`` is true division even for two integers.
                 return f"(static_cast<float>({emit(n.left)}) / {emit(n.right)})"
+            if (
+                isinstance(n.op, ast.Add)
+                and isinstance(n.left, ast.Constant)
+                and isinstance(n.left.value, str)
+            ):
+                # Two C string literals cannot be added; make the left one a String.
+                return f"(String({emit(n.left)}) + {emit(n.right)})"
             return f"({emit(n.left)} {_BIN[type(n.op)]} {emit(n.right)})"
 
         if isinstance(n, ast.UnaryOp) and type(n.op) in _UN:
